@@ -11,6 +11,7 @@ import (
 	"fmt"
 	"os"
 	"path/filepath"
+	"regexp"
 	"sort"
 	"strconv"
 	"strings"
@@ -110,6 +111,7 @@ func main() {
 	msgTypes()
 	errnos()
 	errnoConsumers()
+	syscallConsumers()
 	arches()
 	syscalls()
 	syscallNumbersPerArch()
@@ -464,6 +466,46 @@ func errnoConsumers() {
 	}
 }
 
+// syscallConsumers: the per-architecture syscall tables through the parser: for every architecture code and every number
+// of its table, a SYSCALL record and SECCOMP records (compat=0, compat=1, no compat field) name the syscall the way the
+// table of THAT architecture does.
+func syscallConsumers() {
+	for code, aname := range auparse.AuditArchNames {
+		table := auparse.AuditSyscalls[aname]
+		for nr, name := range table {
+			evals++
+			ok := true
+			for _, rec := range []struct {
+				typ  auparse.AuditMessageType
+				body string
+			}{
+				{auparse.AUDIT_SYSCALL, fmt.Sprintf("arch=%x syscall=%d success=yes exit=0 a0=1 a1=2 a2=3 a3=4 items=0 pid=1 exe=\"/x\"", uint32(code), nr)},
+				{auparse.AUDIT_SYSCALL, fmt.Sprintf("arch=%x syscall=%d per=400000 success=no exit=-38 a0=1 items=0 pid=1 exe=\"/x\"", uint32(code), nr)},
+				{auparse.AUDIT_SECCOMP, fmt.Sprintf("auid=0 uid=0 gid=0 ses=1 pid=1 comm=\"x\" exe=\"/x\" sig=31 arch=%x syscall=%d compat=0 ip=0x7f code=0x0", uint32(code), nr)},
+				{auparse.AUDIT_SECCOMP, fmt.Sprintf("auid=0 uid=0 gid=0 ses=1 pid=1 comm=\"x\" exe=\"/x\" sig=31 arch=%x syscall=%d compat=1 ip=0x7f code=0x0", uint32(code), nr)},
+				{auparse.AUDIT_SECCOMP, fmt.Sprintf("auid=0 uid=0 gid=0 ses=1 pid=1 comm=\"x\" exe=\"/x\" sig=0 arch=%x syscall=%d ip=0x7f code=0x7ffc0000", uint32(code), nr)},
+			} {
+				m, err := auparse.Parse(rec.typ, "audit(1700000000.123:7): "+rec.body)
+				if err != nil {
+					continue
+				}
+				d, err := m.Data()
+				if err != nil {
+					continue
+				}
+				if d["syscall"] != name || d["arch"] != aname {
+					rep("syscall-consumer-other-name:"+rec.typ.String(), "%s record %q: arch=%q syscall=%q, the table of %s names number %d %q", rec.typ, rec.body, d["arch"], d["syscall"], aname, nr, name)
+					ok = false
+					break
+				}
+			}
+			if ok {
+				nontriv++
+			}
+		}
+	}
+}
+
 func buildLine(line string) ([]byte, error) {
 	r, err := flags.Parse(line)
 	if err != nil {
@@ -776,6 +818,50 @@ func normalizations() {
 	if err2 != nil {
 		rep("normalizations-load", "second load fails: %v", err2)
 		return
+	}
+	// LoadNormalizationConfig is exported and reads like a parser: loading OTHER configurations (every action renamed and a
+	// different catch-all, a catch-all only, no catch-all, an invalid one, nothing) leaves what the built-in table selects
+	// for listed, unlisted and unknown syscalls and for record types as it was
+	selection := func() string {
+		var out []string
+		for _, nr := range []int{2, 42, 59, 39, 63, 16, 0, 1, 9999, 101, 257} {
+			line := fmt.Sprintf("type=SYSCALL msg=audit(1.002:3): arch=c000003e syscall=%d success=yes exit=0 a0=1 items=0 pid=1 uid=0 auid=0 ses=1 comm=\"x\" exe=\"/x\"", nr)
+			if m, err := auparse.ParseLogLine(line); err == nil {
+				if e, _ := aucoalesce.CoalesceMessages([]*auparse.AuditMessage{m}); e != nil {
+					j, _ := json.Marshal(map[string]interface{}{"summary": e.Summary, "ecs": e.ECS, "category": e.Category.String()})
+					out = append(out, fmt.Sprintf("%d=%s", nr, j))
+				}
+			}
+		}
+		for _, l := range []string{"type=USER_LOGIN msg=audit(1.002:3): pid=1 uid=0 auid=0 ses=1 msg='op=login acct=\"a\" exe=\"/x\" hostname=? addr=? terminal=ssh res=success'", "type=AVC msg=audit(1.002:3): avc:  denied  { read } for  pid=1 comm=\"x\" scontext=a:b:c:s0 tcontext=a:b:d:s0 tclass=file permissive=0", "type=BPF msg=audit(1.002:3): prog-id=1 op=UNLOAD"} {
+			if m, err := auparse.ParseLogLine(l); err == nil {
+				if e, _ := aucoalesce.CoalesceMessages([]*auparse.AuditMessage{m}); e != nil {
+					j, _ := json.Marshal(map[string]interface{}{"summary": e.Summary, "ecs": e.ECS})
+					out = append(out, string(j))
+				}
+			}
+		}
+		return strings.Join(out, "\n")
+	}
+	before := selection()
+	renamed := regexp.MustCompile(`(?m)^(\s*-? *action: *)(\S+)`).ReplaceAllString(string(b), "${1}foreign-${2}")
+	renamed = strings.Replace(renamed, "  - ecs: *ecs-process\n    syscalls:\n      - '*'", "  - action: foreign-catch-all\n    object_what: foreign\n    ecs: *ecs-file\n    syscalls:\n      - '*'", 1)
+	foreign := []string{
+		renamed,
+		"normalizations:\n  - action: only-catch-all\n    object_what: thing\n    syscalls:\n      - '*'\n",
+		"normalizations:\n  - action: only-open\n    syscalls:\n      - open\n  - action: some-record\n    record_types:\n      - USER_LOGIN\n      - AVC\n",
+		"normalizations: [\n",
+		"",
+		"normalizations:\n  - action: dup\n    syscalls: ['*']\n  - action: dup2\n    syscalls: ['*']\n",
+	}
+	for fi, f := range foreign {
+		_, _, ferr := aucoalesce.LoadNormalizationConfig([]byte(f))
+		evals++
+		if after := selection(); after != before {
+			rep("normalization-selection-changed-by-loading-another-config", "after LoadNormalizationConfig of foreign configuration %d (load error: %v) the built-in table selects differently:\n%s\nbefore:\n%s", fi, ferr, after, before)
+			break
+		}
+		nontriv++
 	}
 	// the table is loaded once per process: whatever order-dependence a load has shows up only
 	// across loads (e.g. Go's randomised map iteration) - 200 more loads, candidate order per
